@@ -2,7 +2,7 @@
 
 use winnow::{
     ascii::line_ending,
-    combinator::{alt, delimited, eof, trace},
+    combinator::{alt, delimited, eof, repeat, trace},
     error::ParserError,
     stream::{AsChar, Compare, Stream, StreamIsPartial},
     token::{one_of, take_till, take_while},
@@ -53,7 +53,19 @@ where
     <I as Stream>::Token: AsChar,
     E: ParserError<I>,
 {
-    trace("character::newlines", take_while(0.., b"\r\n")).parse_next(input)
+    // Lines only with spaces are also treated as vertical spaces.
+    trace(
+        "character::newlines",
+        repeat::<_, _, (), _, _>(
+            0..,
+            alt((
+                take_while(1.., b"\r\n").void(),
+                (take_while(1.., b" \t"), alt((line_ending.void(), eof.void()))).void(),
+            )),
+        )
+        .take(),
+    )
+    .parse_next(input)
 }
 
 /// Parses unnested string in paren.
